@@ -107,7 +107,26 @@ def count_tainted(t, an):
         return True
     if t[0] == "call" and t[1] in (ORD, "graaf::op::size::Size::size") and t[3] and t[3][0][0] == "at" and t[3][0][1].startswith("A1"):
         return True
+    if an.f["kind"] == "Closure" and t in _tainted_captures(an):
+        return True
     return any(count_tainted(x, an) for x in t if isinstance(x, tuple))
+
+
+def _tainted_captures(an):
+    """closure-side terms of captured values that are counts (order / size of the receiver) in the enclosing body"""
+    c = an.__dict__.get("_count_caps")
+    if c is None:
+        c = set()
+        an.__dict__["_count_caps"] = c
+        crate = getattr(an, "crate", None)
+        if crate is not None:
+            from .closures import capture_map
+            cm = capture_map(crate, an)
+            if cm is not None:
+                for pv, cv in cm.valmap:
+                    if isinstance(pv, tuple) and count_tainted(pv, cm.pan):
+                        c.add(cv)
+    return c
 
 
 VERTEX_TAKING = {
@@ -1007,6 +1026,82 @@ def rule_one_per_pair(crate, prop, tier):
                         # modulus is the loop variable u (range 1..order) / closure parameter
             o.check(ok, pretty, "parent-is-rem-u", "the parent of u is not drawn as `x % u`")
     return o.report(floors={"seeded tournament / tree generators": (o.instances, 8)})
+
+
+# ---------------------------------------------------------------------------
+def rule_er_draw(crate, prop, tier):
+    """C15: erdos_renyi includes an arc exactly under `rng.next_f64() < p` (strict).  With next_f64 in [0, 1) (UNIT-INTERVAL)
+    this gives no arcs for p = 0 and all arcs for p = 1; a non-strict test, a comparison of raw integer draws with a scaled
+    threshold, or a draw used in any other way does not."""
+    from .closures import capture_map
+    from .relax import _all_terms
+    o = Obl("ER-DRAW")
+    NF = "Xoshiro256StarStar::next_f64"
+    for p, nm, st in generator_impls(crate, True):
+        if nm != "erdos_renyi":
+            continue
+        o.instances += 1
+        pretty = crate.prog.pretty[p]
+        an0 = crate.an(p)
+        pp = param_locals(an0, ("p",)).get("p")
+        bodies = [p] + sorted(c for c in crate.fn_paths() if crate.prog.fns[c].get("root") == p and c != p)
+        draws = 0
+        other_draws = []
+        delegates = False
+        ptaint = {p: ({pp, ("addr", "L%d" % pp[1], None), ("mem", "L%d" % pp[1], ("e",), None)} if pp else set())}
+
+        def is_p(t, pset):
+            if t in pset or any(_mentions(t, x) for x in pset):
+                return True
+            # read through a captured reference to p
+            return t[0] == "mem" and isinstance(t[1], str) and t[1].endswith("*") and ("mem", t[1][:-1], ("e",), None) in pset
+        for bp in bodies:
+            an = crate.an(bp)
+            if bp != p:
+                cm = capture_map(crate, an)
+                par = crate.prog.fns[bp].get("parent")
+                pt = ptaint.get(par, set())
+                ptaint[bp] = {cv for pv, cv in (cm.valmap if cm else []) if any(_mentions(pv, t) or pv == t for t in pt)}
+            pset = ptaint[bp]
+            for ev in an.events:
+                if ev["k"] != "call" or not ev["key"]:
+                    continue
+                if ev["key"].endswith("ErdosRenyi::erdos_renyi"):
+                    delegates = True
+                if ev["key"].endswith("Xoshiro256StarStar::next") or ev["key"].endswith("Xoshiro256StarStar::next_bool") or \
+                        (ev["key"] == ITER_NEXT and ev["fn"] and "Xoshiro" in str(ev["fn"].get("resolved_pretty", "")) + str(ev["fn"].get("pretty", ""))):
+                    other_draws.append(ev)
+                if not ev["key"].endswith(NF):
+                    continue
+                draws += 1
+                res = ev["res"]
+                uses = []
+
+                def walk(t, parent):
+                    if t == res:
+                        uses.append(parent)
+                        return
+                    if isinstance(t, tuple):
+                        for x in t:
+                            if isinstance(x, tuple):
+                                walk(x, t)
+                seen = set()
+                for t in _all_terms(an):
+                    if t is res or t == res or t in seen:
+                        continue
+                    seen.add(t)
+                    walk(t, None)
+                good = bool(uses) and all(u is not None and u[0] == "bin" and u[1] == "Lt" and u[2] == res and is_p(u[3], pset)
+                                          for u in uses)
+                o.check(good, pretty, "draw-strictly-below-p", "a draw of next_f64() is not used exactly as `draw < p`: the extremes p = 0 "
+                        "(no arcs) and p = 1 (all arcs) are no longer guaranteed", ev["span"])
+        if draws == 0 and not delegates:
+            if other_draws:
+                o.check(False, pretty, "draw-is-next-f64", "arcs are decided by raw draws (%s) instead of `next_f64() < p`: a threshold "
+                        "scaled to the integer range cannot be exact at p = 1" % other_draws[0]["key"].split("::")[-1], other_draws[0]["span"])
+            else:
+                o.undecide(pretty, "draw-strictly-below-p", "no draw of the PRNG was found in erdos_renyi")
+    return o.report(floors={"erdos_renyi impls": (o.instances, 4)})
 
 
 # ---------------------------------------------------------------------------
